@@ -26,6 +26,8 @@ struct Tally {
     stress_rounds: u64,
     late_faults: u64,
     env_states: u64,
+    mtime_steps: u64,
+    leftover_tmp: u64,
 }
 fn flush(t: &Tally, out: &mut Out) {
     out.count("evaluations", t.histories);
@@ -41,6 +43,8 @@ fn flush(t: &Tally, out: &mut Out) {
     out.count("concurrent_stress_rounds", t.stress_rounds);
     out.count("faults.documents_appearing_under_a_running_context", t.late_faults);
     out.count("file_states_compared_between_XDG_DATA_HOME_and_HOME_fallback", t.env_states);
+    out.count("auto_correct_file_replaced_with_non_advancing_time_stamps", t.mtime_steps);
+    out.count("left_over_temporary_store_files", t.leftover_tmp);
 }
 
 /// Which of the two user files a document is installed as.
@@ -366,7 +370,7 @@ impl Prop for C10 {
     fn rule(&self) -> String {
         "faults: (a) every byte prefix 0..len of learned-selection stores the engine itself wrote in this run (25 stores quick, 200 thorough) and of a user auto-correct file; \
          (b) a corpus of 32 documents installed as either file, before the context is created and again under a running context followed by update_engine: wrong shapes, empty file, BOM, invalid UTF-8, NUL bytes, deep nesting, trailing garbage, duplicate keys, empty-string keys and values, a 5 MB object; \
-         (c) directory states: user directory missing, user directory is a regular file, store path is a directory, auto-correct path is a directory, dangling symlinks; failed saves: file-size limit 0 / 10 / 40 bytes (RLIMIT_FSIZE), user directory removed or replaced by a file, the save's temporary path linked to /dev/full (ENOSPC); (e) three file states (valid, damaged, directory missing) once with the user directory named by XDG_DATA_HOME and once by the HOME/.local/share fallback: same probe renderings required; \
+         (c) directory states: user directory missing, user directory is a regular file, store path is a directory, auto-correct path is a directory, dangling symlinks; failed saves: file-size limit 0 / 10 / 40 bytes (RLIMIT_FSIZE), user directory removed or replaced by a file, the save's temporary path linked to /dev/full (ENOSPC); (e) three file states (valid, damaged, directory missing) once with the user directory named by XDG_DATA_HOME and once by the HOME/.local/share fallback: same probe renderings required; (f) the user auto-correct file replaced under a running context with time stamps an hour earlier, equal, the epoch, ten years ahead, earlier again, by rename, removed, re-created with an old stamp - update_engine and typing must keep working; (g) a left-over temporary store file (short junk, 5 kB junk, a valid older store) before two learning commits: a new context must pre-select the first choice; \
          (d, thorough) three processes committing into / constructing over one directory. Each fault is followed by a fixed battery: construct, 16 probe typings (words of the files and their suffix forms), 4 learning commits, re-typing, \
          update_engine x3, restart, suggestions-off and fixed-layout contexts. Unreadable content must give the probe renderings of an absent file; after a failed save the earlier entries must still be pre-selected by a new context. \
          distinct_nontrivial = distinct faults after which the battery was run."
@@ -388,7 +392,7 @@ impl Prop for C10 {
     fn minima(&self, _tier: Tier) -> Vec<(&'static str, u64)> {
         vec![
             ("faults.byte_prefixes_of_engine_written_files", 300), ("faults.corpus_documents", 60), ("faults.directory_states", 4), ("faults.failed_saves", 5),
-            ("unreadable_content_compared_with_absent_file", 300), ("readable_documents_exercised", 10), ("failed_save_keeps_earlier_entries_checked", 5), ("faults.documents_appearing_under_a_running_context", 60), ("file_states_compared_between_XDG_DATA_HOME_and_HOME_fallback", 3),
+            ("unreadable_content_compared_with_absent_file", 300), ("readable_documents_exercised", 10), ("failed_save_keeps_earlier_entries_checked", 5), ("faults.documents_appearing_under_a_running_context", 60), ("file_states_compared_between_XDG_DATA_HOME_and_HOME_fallback", 3), ("auto_correct_file_replaced_with_non_advancing_time_stamps", 8), ("left_over_temporary_store_files", 3),
         ]
     }
     fn run_shard(&self, env: &Env, out: &mut Out) {
@@ -669,6 +673,105 @@ impl Prop for C10 {
             }
             let _ = std::fs::remove_dir_all(env.root("c10-home"));
             let _ = std::fs::remove_dir_all(&xdg_root);
+        }
+        // ---- (g) what an interrupted save leaves behind: a temporary file next to the store (shorter / longer than the
+        // next store, valid / junk). The next saves must go through: a new context pre-selects what was learned.
+        if env.shard == 3 % env.nshards {
+            let r = env.root("c10-leftover");
+            let spec = CfgSpec::new(Lay::Phonetic, O_PSUGG);
+            for (name, content) in [("short junk", "{\"x".to_string()), ("long junk", format!("{{\"left\":\"over\",\"pad\":\"{}\"}}", "y".repeat(5000))), ("a valid older store", "{\"ami\":\"\u{0986}\u{09ae}\u{0987}\"}".to_string())] {
+                let case = || json!({"fault": "left-over-temporary-store-file", "content": name});
+                out.begin_case(&case);
+                fresh_root(&r);
+                std::fs::write(selection_file(&r).with_extension("json.tmp"), &content).unwrap();
+                t.leftover_tmp += 1;
+                let res = (|| -> Result<Option<(String, String)>, Panic> {
+                    let sess = Sess::new(spec, &r)?;
+                    let mut want = None;
+                    let mut first_bad: Option<String> = None;
+                    for w in ["tumi", "kotha"] {
+                        if let Some(s) = sess.type_text_protocol(w)? {
+                            let n = s.len();
+                            let idx = (s.previously_selected_index() + 1) % n.max(1);
+                            if w == "tumi" {
+                                want = s.get_suggestions().get(idx).cloned();
+                            }
+                            sess.commit(idx)?;
+                            // a new context right after every save
+                            let n = Sess::new(spec, &r)?;
+                            let got = n.type_text_protocol("tumi")?.map(|s| s.get_suggestions().get(s.previously_selected_index()).cloned().unwrap_or_default());
+                            n.finish()?;
+                            if got != want && first_bad.is_none() {
+                                first_bad = Some(format!("{} (right after the save of {w:?})", got.unwrap_or_default()));
+                            }
+                        }
+                    }
+                    let n = Sess::new(spec, &r)?;
+                    let got = n.type_text_protocol("tumi")?.map(|s| s.get_suggestions().get(s.previously_selected_index()).cloned().unwrap_or_default());
+                    n.finish()?;
+                    Ok(want.zip(got).map(|(w, g)| (w, if first_bad.is_some() { first_bad.clone().unwrap() } else { g })))
+                })();
+                match res {
+                    Err(p) => out.violation("keeps-working", format!("c10:panic@{}:left-over temporary file", p.loc), case(), "saving and restarting work".into(), format!("panic at {}: {}", p.loc, p.msg)),
+                    Ok(Some((want, got))) if want != got => {
+                        let store = std::fs::read(selection_file(&r)).unwrap_or_default();
+                        out.violation("failed-save-loses-at-most-one-choice", format!("c10:choice-lost-with-left-over-temporary-file:{name}"), case(),
+                                      format!("{want:?} pre-selected for \"tumi\" by a new context (it was chosen, and another word was learned after it)"), format!("{got:?}; store on disk: {:?}", String::from_utf8_lossy(&store)));
+                    }
+                    _ => {}
+                }
+            }
+            let _ = std::fs::remove_dir_all(&r);
+        }
+        // ---- (f) the user auto-correct file replaced under a running context with time stamps that do not advance
+        // (restored backup, cp -p, clock set back), by rename, and removed: only "keeps working" is judged here
+        if env.shard == 2 % env.nshards {
+            use std::time::{Duration, SystemTime};
+            let r = env.root("c10-mtime");
+            fresh_root(&r);
+            let now = SystemTime::now();
+            let stamp = |t: SystemTime| {
+                if let Ok(f) = std::fs::File::options().write(true).open(autocorrect_file(&r)) {
+                    let _ = f.set_modified(t);
+                }
+            };
+            std::fs::write(autocorrect_file(&r), b"{\"ami\":\"tumi\"}").unwrap();
+            stamp(now);
+            let spec = CfgSpec::new(Lay::Phonetic, O_PSUGG);
+            if let Ok(mut sess) = Sess::new(spec, &r) {
+                let steps: Vec<(&str, Option<SystemTime>)> = vec![
+                    ("an hour earlier", Some(now - Duration::from_secs(3600))), ("the same instant", Some(now - Duration::from_secs(3600))), ("the epoch", Some(SystemTime::UNIX_EPOCH)),
+                    ("ten years ahead", Some(now + Duration::from_secs(315_360_000))), ("earlier again", Some(now - Duration::from_secs(7200))), ("replaced by rename", Some(now + Duration::from_secs(400_000_000))), ("removed", None),
+                    ("created again with an old stamp", Some(now - Duration::from_secs(86_400))),
+                ];
+                for (i, (name, t_new)) in steps.iter().enumerate() {
+                    let case = || json!({"fault": "time-stamp", "user_autocorrect_replaced_with_mtime": name, "step": i});
+                    out.begin_case(&case);
+                    match (name, t_new) {
+                        (_, None) => {
+                            let _ = std::fs::remove_file(autocorrect_file(&r));
+                        }
+                        (&"replaced by rename", Some(t0)) => {
+                            let tmp = autocorrect_file(&r).with_extension("new");
+                            std::fs::write(&tmp, format!("{{\"ami\":\"v{i}\"}}")).unwrap();
+                            std::fs::rename(&tmp, autocorrect_file(&r)).unwrap();
+                            stamp(*t0);
+                        }
+                        (_, Some(t0)) => {
+                            std::fs::write(autocorrect_file(&r), format!("{{\"ami\":\"v{i}\"}}")).unwrap();
+                            stamp(*t0);
+                        }
+                    }
+                    t.mtime_steps += 1;
+                    t.calls += 6;
+                    let r2 = sess.update(spec).and_then(|_| sess.type_text_protocol("amie")).and_then(|_| sess.finish());
+                    if let Err(p) = r2 {
+                        out.violation("keeps-working", format!("c10:panic@{}:auto-correct file replaced with mtime {name}", p.loc), case(), "update_engine and typing keep working".into(), format!("panic at {}: {}", p.loc, p.msg));
+                        break;
+                    }
+                }
+            }
+            let _ = std::fs::remove_dir_all(&r);
         }
         // ---- (d) concurrent stress (thorough): three processes over one directory; only "no panic" is judged
         if thorough && env.shard < 3 {
